@@ -31,6 +31,10 @@ const (
 	errorShortArray               = "array is short (%d != %d)"
 )
 
+const (
+	errorTooDeepArray = "too deeply nested array (%d > %d)"
+)
+
 // ErrEOM is the error returned by Array::Next() when no more message is available.
 var ErrEOM = errors.New("EOM")
 
